@@ -83,6 +83,7 @@ structure Pipe where
   produced : Nat          -- calls of `produce` so far
   ret : Ret
   got : List Job          -- history: batches fully processed (ghost)
+  sub : List Job          -- history: batches submitted by the reader, in order (ghost)
   deriving Inhabited
 
 def Pipe.cancelled (P : Pipe) : Bool := P.parentCancelled || P.localCancelled
@@ -96,7 +97,7 @@ def Pipe.init (lines batch : Nat) (scanErr : Bool) (bad : List Nat) (stopAt : Op
     rpc := if lines = 0 then .fin else .sel, unread := lines, nextLine := 0, linesRead := 0,
     tokens := 0, out := [], done := none, parentCancelled := false, localCancelled := false,
     cpc := .sel, readerDone := false, doneNil := false, startIndex := 0, pending := [], produced := 0,
-    ret := .none, got := [] }
+    ret := .none, got := [], sub := [] }
 
 structure State where
   np : Nat
@@ -154,6 +155,11 @@ def flush : Nat → Pipe → Pipe × Bool
       | some r => ({ P with produced := P.produced + r, startIndex := P.startIndex + (r - 1), pending := rest }, true)
       | none => flush fuel { P with produced := P.produced + j.n, startIndex := P.startIndex + j.n, pending := rest }
 
+/-- the check at the end of the loop body: `if fileReaderIsDone && startIndex == linesRead { break }`
+(the only place besides the `done` branch where the consumer reads `linesRead`) -/
+def finishBatch (P : Pipe) : Pipe :=
+  if P.readerDone = true ∧ P.startIndex = P.linesRead then { P with cpc := .ret, ret := .ok } else { P with cpc := .sel }
+
 /-- the body of `case outJobs := <-outChan:` after the token was given back, including the final check -/
 def procBatch (P : Pipe) (j : Job) : Pipe :=
   let e := firstBad P.bad j.first j.n
@@ -165,23 +171,16 @@ def procBatch (P : Pipe) (j : Job) : Pipe :=
     match stopHit P.produced m P.stopAt with
     | some r => { P with produced := P.produced + r, startIndex := P.startIndex + (r - 1), cpc := .ret, ret := .stop }
     | none =>
-      let P1 := { P with produced := P.produced + m, startIndex := P.startIndex + m }
       match e with
-      | some _ => { P1 with cpc := .ret, ret := .err }
+      | some _ => { P with produced := P.produced + m, startIndex := P.startIndex + m, cpc := .ret, ret := .err }
       | none =>
-        let (P2, stopped) := flush P1.pending.length P1
-        if stopped then { P2 with cpc := .ret, ret := .stop }
-        else
-          let P3 := { P2 with got := j :: P2.got }
-          if P3.readerDone ∧ P3.startIndex = P3.linesRead then { P3 with cpc := .ret, ret := .ok }
-          else { P3 with cpc := .sel }
+        let r := flush P.pending.length { P with produced := P.produced + j.n, startIndex := P.startIndex + j.n }
+        if r.2 = true then { r.1 with cpc := .ret, ret := .stop }
+        else finishBatch { r.1 with got := j :: r.1.got }
   else
     match e with
     | some _ => { P with cpc := .ret, ret := .err }
-    | none =>
-      let P3 := { P with pending := j :: P.pending, got := j :: P.got }
-      if P3.readerDone ∧ P3.startIndex = P3.linesRead then { P3 with cpc := .ret, ret := .ok }
-      else { P3 with cpc := .sel }
+    | none => finishBatch { P with pending := j :: P.pending, got := j :: P.got }
 
 /-! ## actions and the step function -/
 
@@ -217,7 +216,8 @@ def step (s : State) : Action → Option State
   | .rSub p =>
     let P := s.pipe p
     if p < s.np ∧ P.rpc = .hold ∧ s.jobs.length < jobCap then
-      some { (s.setPipe p { P with rpc := .write }) with jobs := s.jobs ++ [⟨p, P.nextLine, P.cur⟩] }
+      some { (s.setPipe p { P with rpc := .write, sub := P.sub ++ [⟨p, P.nextLine, P.cur⟩] }) with
+             jobs := s.jobs ++ [⟨p, P.nextLine, P.cur⟩] }
     else none
   | .rWrite p =>
     let P := s.pipe p
@@ -305,24 +305,72 @@ def run (s : State) : List Action → Option State
 def State.init (nw : Nat) (pipes : List Pipe) : State :=
   { np := pipes.length, nw := nw, pipe := fun p => pipes.getD p default, jobs := [], worker := fun _ => none }
 
+def jobCnt (j : Option Job) (p : Nat) : Nat := match j with | some j => if j.pipe = p then 1 else 0 | none => 0
+def someCnt (j : Option Job) : Nat := match j with | some _ => 1 | none => 0
+
 /-- number of workers (below `n`) holding a job of pipe `p` -/
 def busyWith (worker : Nat → Option Job) (p : Nat) : Nat → Nat
   | 0 => 0
-  | n + 1 => busyWith worker p n + (match worker n with | some j => if j.pipe = p then 1 else 0 | none => 0)
+  | n + 1 => busyWith worker p n + jobCnt (worker n) p
 
 /-- number of workers (below `n`) holding a job -/
 def busy (worker : Nat → Option Job) : Nat → Nat
   | 0 => 0
-  | n + 1 => busy worker n + (match worker n with | some _ => 1 | none => 0)
+  | n + 1 => busy worker n + someCnt (worker n)
+
+/-- number of jobs of pipe `p` in the job channel -/
+def inJobs (jobs : List Job) (p : Nat) : Nat := (jobs.filter (fun j => j.pipe = p)).length
 
 /-- a pipe is finished: `Run` returned, the reader goroutine ended, no job of it is anywhere in the pool -/
 def State.pipeFinal (s : State) (p : Nat) : Prop :=
-  (s.pipe p).cpc = .exit ∧ (s.pipe p).rpc = .exit ∧ (s.jobs.filter (·.pipe = p)).length = 0 ∧ busyWith s.worker p s.nw = 0
+  (s.pipe p).cpc = .exit ∧ (s.pipe p).rpc = .exit ∧ inJobs s.jobs p = 0 ∧ busyWith s.worker p s.nw = 0
 
 instance (s : State) (p : Nat) : Decidable (s.pipeFinal p) := by unfold State.pipeFinal; infer_instance
 
 /-- every pipe is finished -/
 def State.final (s : State) : Prop := ∀ p, p < s.np → s.pipeFinal p
+
+/-! ## reachable states -/
+
+/-- a pipe as it is when `Run` starts: `lines` scannable lines, nothing sent yet; the batch size is positive -/
+def Pipe.IsInit (P : Pipe) : Prop :=
+  ∃ lines batch scanErr bad stopAt, 1 ≤ batch ∧ P = Pipe.init lines batch scanErr bad stopAt
+
+/-- reachable from a start state with at least one worker by some schedule -/
+def Reachable (s : State) : Prop :=
+  ∃ nw pipes sched, 1 ≤ nw ∧ (∀ P, P ∈ pipes → P.IsInit) ∧ run (State.init nw pipes) sched = some s
+
+/-! ## the termination measure -/
+
+def rMeasureOf (rpc : RPc) (unread batch : Nat) : Nat :=
+  match rpc with
+  | .sel => 9 * unread + 3
+  | .hold => 9 * unread + 2
+  | .write => 9 * (unread - min batch unread) + 4
+  | .fin => 1
+  | .exit => 0
+
+def cMeasureOf (cpc : CPc) (doneNil : Bool) : Nat :=
+  match cpc with
+  | .sel => 3 + (if doneNil = true then 0 else 1)
+  | .tok _ => 5 + (if doneNil = true then 0 else 1)
+  | .proc _ => 4 + (if doneNil = true then 0 else 1)
+  | .ret => 1
+  | .exit => 0
+
+def rMeasure (P : Pipe) : Nat := rMeasureOf P.rpc P.unread P.batch
+def cMeasure (P : Pipe) : Nat := cMeasureOf P.cpc P.doneNil
+
+def pipeMeasure (P : Pipe) : Nat :=
+  rMeasure P + cMeasure P + 3 * P.out.length + (if P.parentCancelled = true then 0 else 1)
+
+def sumTo (f : Nat → Nat) : Nat → Nat
+  | 0 => 0
+  | n + 1 => sumTo f n + f n
+
+/-- strictly decreased by every action (in reachable states): an upper bound on the number of remaining steps -/
+def measure (s : State) : Nat :=
+  sumTo (fun p => pipeMeasure (s.pipe p)) s.np + 5 * s.jobs.length + 4 * busy s.worker s.nw
 
 /-! ## a canonical scheduler (used by the driver to print the schedule-independent summary) -/
 
